@@ -14,6 +14,12 @@ pub fn run(sc: &Value) -> Value {
     if sc["rule"].as_str() == Some("EvenOdd") {
         path.winding = Winding::EvenOdd;
     }
+    // C16's consequence clause: the path is flattened first and the flattened path is drawn
+    if let Some(t) = sc.get("flatten_tol") {
+        let w = path.winding;
+        path = path.flatten(num(t));
+        path.winding = w;
+    }
     let kind = sc["kind"].as_str().unwrap_or("stroke");
     let white = Source::Solid(SolidSource { r: 255, g: 255, b: 255, a: 255 });
     let mut dt = DrawTarget::new(w, h);
